@@ -40,3 +40,139 @@ package astnormalization
 //@     invariant g_down == phi0 + 1 && len(d.variableNamesUsed) >= old(len(d.variableNamesUsed)) && d.operation == old(d.operation)
 //@   loop 1:
 //@     invariant g_down == phi0 + 1 && len(d.variableNamesUsed) >= old(len(d.variableNamesUsed)) && d.operation == old(d.operation)
+
+// ----------------------------------------------------------------------------------------------
+// C03, @skip/@include evaluation (spec 3.13: a node is left out iff @skip(if: true) or @include(if: false)). Decision
+// table of the two handlers over what GetBooleanValue reports for the `if` argument of this directive: the node is
+// removed iff the literal is valid and says so (and nodes are not kept); otherwise only the directive goes, and only
+// when the literal was valid; a directive whose argument is a variable is left alone.
+//@ func directiveIncludeSkipVisitor.handleSkip
+//@   requires d != nil && d.operation != nil && d.Walker != nil
+//@   ghost var g_valid bool = false
+//@   ghost var g_flag bool = false
+//@   ghost var g_node bool = false
+//@   ghost var g_dir bool = false
+//@   ghost var g_arg int = 0 - 1
+//@   at call Document.ArgumentNameBytes: ghost g_arg = arg1
+//@   ghost var g_isIf bool = false
+//@   at call bytes.Equal: assert {the.only.argument.must.be.named.if} arr(arg1) == arr(literal.IF) && len(arg1) == len(literal.IF)
+//@   at call bytes.Equal: ghost g_isIf = result
+//@   at call Document.ArgumentValue: assert {the.value.of.the.argument.whose.name.was.checked} arg1 == g_arg && g_arg == d.operation.Directives[ref].Arguments.Refs[0]
+//@   at call Document.GetBooleanValue: assert {only.an.argument.named.if.is.evaluated} g_isIf
+//@   at call Document.GetBooleanValue: ghost g_valid = result1
+//@   at call Document.GetBooleanValue: ghost g_flag = result0
+//@   at call directiveIncludeSkipVisitor.removeParentNode: ghost g_node = true
+//@   at call Document.RemoveDirectiveFromNode: assert {the.directive.is.taken.off.its.own.node} arg2 == ref && arg1 == d.Walker.Ancestors[len(d.Walker.Ancestors) - 1]
+//@   at call Document.RemoveDirectiveFromNode: ghost g_dir = true
+//@   ensures {skipped.iff.skip.true} g_node <==> g_valid && g_flag && !old(d.keepNodes)
+//@   ensures {otherwise.only.the.evaluated.directive.goes} g_dir <==> g_valid && (!g_flag || old(d.keepNodes))
+//@   modifies *
+//@   safety no-bounds
+
+//@ func directiveIncludeSkipVisitor.handleInclude
+//@   requires d != nil && d.operation != nil && d.Walker != nil
+//@   ghost var g_valid bool = false
+//@   ghost var g_flag bool = false
+//@   ghost var g_node bool = false
+//@   ghost var g_dir bool = false
+//@   ghost var g_arg int = 0 - 1
+//@   at call Document.ArgumentNameBytes: ghost g_arg = arg1
+//@   ghost var g_isIf bool = false
+//@   at call bytes.Equal: assert {the.only.argument.must.be.named.if} arr(arg1) == arr(literal.IF) && len(arg1) == len(literal.IF)
+//@   at call bytes.Equal: ghost g_isIf = result
+//@   at call Document.ArgumentValue: assert {the.value.of.the.argument.whose.name.was.checked} arg1 == g_arg && g_arg == d.operation.Directives[ref].Arguments.Refs[0]
+//@   at call Document.GetBooleanValue: assert {only.an.argument.named.if.is.evaluated} g_isIf
+//@   at call Document.GetBooleanValue: ghost g_valid = result1
+//@   at call Document.GetBooleanValue: ghost g_flag = result0
+//@   at call directiveIncludeSkipVisitor.removeParentNode: ghost g_node = true
+//@   at call Document.RemoveDirectiveFromNode: assert {the.directive.is.taken.off.its.own.node} arg2 == ref && arg1 == d.Walker.Ancestors[len(d.Walker.Ancestors) - 1]
+//@   at call Document.RemoveDirectiveFromNode: ghost g_dir = true
+//@   ensures {left.out.iff.include.false} g_node <==> g_valid && !g_flag && !old(d.keepNodes)
+//@   ensures {otherwise.only.the.evaluated.directive.goes} g_dir <==> g_valid && (g_flag || old(d.keepNodes))
+//@   modifies *
+//@   safety no-bounds
+
+// the node carrying the directive is removed from the selection set that contains it; a placeholder __typename is added
+// to that set exactly when the removal emptied it
+//@ func directiveIncludeSkipVisitor.removeParentNode
+//@   requires d != nil && d.operation != nil && d.Walker != nil
+//@   ghost var g_removed bool = false
+//@   ghost var g_empty bool = false
+//@   ghost var g_added bool = false
+//@   at call Document.RemoveNodeFromSelectionSetNode: assert {the.directives.node.is.removed.from.its.own.parent} arg1 == d.Walker.Ancestors[len(d.Walker.Ancestors) - 1] && arg2 == d.Walker.Ancestors[len(d.Walker.Ancestors) - 2]
+//@   at call Document.RemoveNodeFromSelectionSetNode: ghost g_removed = result
+//@   at call Document.SelectionSetIsEmpty: assert {emptiness.of.the.set.the.node.was.removed.from} arg1 == d.Walker.Ancestors[len(d.Walker.Ancestors) - 2].Ref && g_removed
+//@   at call Document.SelectionSetIsEmpty: ghost g_empty = result
+//@   at call addInternalTypeNamePlaceholder: assert {a.placeholder.only.for.a.set.that.became.empty} g_removed && g_empty && arg1 == d.Walker.Ancestors[len(d.Walker.Ancestors) - 2].Ref
+//@   at call addInternalTypeNamePlaceholder: ghost g_added = true
+//@   ensures {an.emptied.selection.set.gets.the.placeholder} g_removed && g_empty ==> g_added
+//@   modifies *
+//@   safety no-bounds
+
+// C03, duplicate field removal: only the later one of two leaf fields of the same selection set is removed, and only
+// after the full comparison (name, alias, arguments, directive set) said they are equal; one removal per visit, then
+// the set is revisited. The first occurrence, and with it the order of the response, stays.
+//@ func deduplicateFieldsVisitor.EnterSelectionSet
+//@   requires d != nil && d.operation != nil && d.Walker != nil
+//@   ghost var g_equal bool = false
+//@   ghost var g_l int = 0 - 1
+//@   ghost var g_r int = 0 - 1
+//@   ghost var g_removed int = 0
+//@   at call Document.FieldsAreEqualFlat: assert {two.different.positions.of.this.set.the.earlier.one.on.the.left} a < b && arg1 == left && arg2 == right && arg3
+//@   at call Document.FieldsAreEqualFlat: assert {both.are.leaf.field.selections.of.this.set} d.operation.Selections[i].Kind == ast.SelectionKindField && d.operation.Selections[j].Kind == ast.SelectionKindField && d.operation.Selections[i].Ref == left && d.operation.Selections[j].Ref == right && !d.operation.Fields[left].HasSelections && !d.operation.Fields[right].HasSelections
+//@   at call Document.FieldsAreEqualFlat: ghost g_equal = result
+//@   at call Document.FieldsAreEqualFlat: ghost g_l = arg1
+//@   at call Document.FieldsAreEqualFlat: ghost g_r = arg2
+//@   at call Document.MergeFieldsDefer: assert {the.defer.marks.of.the.compared.pair.are.merged.into.the.survivor} g_equal && arg1 == g_l && arg2 == g_r
+//@   at call Document.RemoveFromSelectionSet: assert {only.the.later.duplicate.is.removed.from.this.set} g_equal && g_removed == 0 && arg1 == ref && arg2 == b && a < b
+//@   at call Document.RemoveFromSelectionSet: ghost g_removed = g_removed + 1
+//@   ensures {at.most.one.removal.per.visit} g_removed <= 1
+//@   modifies *
+//@   safety no-bounds
+//@   loop 0:
+//@     invariant g_removed == 0
+//@   loop 1:
+//@     invariant g_removed == 0
+
+// ----------------------------------------------------------------------------------------------
+// C03, variable renaming keeps distinct variables distinct: a generated name is neither one that was handed out before
+// nor the name of a variable that keeps its name (file uploads are not renamed) - otherwise two variables become one.
+//@ func variablesMappingVisitor.generateUnusedVariableMappingName
+//@   requires v != nil
+//@   ensures {a.generated.name.is.new.and.not.the.name.of.a.variable.that.keeps.its.name} len(result) > 0 ==> !has(v.mapping, string(result)) && (forall q in 0..len(v.keptNames) :: v.keptNames[q] != string(result))
+//@   modifies *
+//@   safety no-bounds
+//@   loop 0:
+//@     invariant v.mapping == old(v.mapping) && v.keptNames == old(v.keptNames)
+//@   loop 1:
+//@     invariant v.mapping == old(v.mapping) && v.keptNames == old(v.keptNames)
+//@   loop 2:
+//@     invariant v.mapping == old(v.mapping) && v.keptNames == old(v.keptNames)
+
+// the names that must be avoided are collected from every variable definition of the operation before names are
+// generated: the name of a definition is recorded exactly when the definition was not collected for renaming
+//@ func variablesMappingVisitor.collectKeptNames
+//@   requires v != nil && v.operation != nil
+//@   ghost var g_seen int = 0
+//@   ghost var g_kept int = 0
+//@   ghost var g_last bool = false
+//@   at call slices.ContainsFunc: assert {each.definition.is.looked.up.among.the.variables.collected.for.renaming} arg0 == v.variables
+//@   at call slices.ContainsFunc: ghost g_seen = g_seen + 1
+//@   at call slices.ContainsFunc: ghost g_last = result
+//@   at call Document.VariableDefinitionNameString: assert {only.the.name.of.a.definition.that.is.not.renamed.is.recorded} !g_last && arg1 == variableDefinitionRef
+//@   at call Document.VariableDefinitionNameString: ghost g_kept = g_kept + 1
+//@   let n = len(v.operation.OperationDefinitions[v.operationRef].VariableDefinitions.Refs)
+//@   ensures {every.variable.definition.of.the.operation.was.examined} 0 <= old(v.operationRef) && old(v.operationRef) < old(len(v.operation.OperationDefinitions)) ==> g_seen == n
+//@   ensures {one.name.per.definition.that.keeps.its.name} len(v.keptNames) == g_kept
+//@   modifies *
+//@   safety no-bounds
+//@   loop 0:
+//@     invariant g_seen == phi0 + 1 && len(v.keptNames) == g_kept
+
+//@ func variablesMappingVisitor.LeaveDocument
+//@   requires v != nil && v.operation != nil
+//@   ghost var g_collected bool = false
+//@   at call variablesMappingVisitor.collectKeptNames: ghost g_collected = true
+//@   at call variablesMappingVisitor.generateUnusedVariableMappingName: assert {names.are.generated.after.the.names.to.avoid.were.collected} g_collected
+//@   modifies *
+//@   safety none
